@@ -263,7 +263,7 @@ Proof.
     rewrite <- !app_assoc. destruct (rspec_int32 swp n) as [E _]; [unfold i32_range; lia|]. rewrite E.
     destruct (n <? 0) eqn:C; [lia|]. unfold fseek_cur.
     assert (P : 0 <= bit_packed_size n) by (rewrite <- Hb; apply zlen_nonneg).
-    destruct (bit_packed_size n <? 0) eqn:C2; [lia|]. rewrite <- Hb. now rewrite zdrop_app_exact.
+    destruct (bit_packed_size n <? 0) eqn:C2; [lia|]. rewrite <- Hb. now rewrite drop_z_app.
 Qed.
 
 End VaIO.
